@@ -60,6 +60,9 @@ CLAIMED = {
  "C12": dict(cat="other", technique="real check_command vs real scan_path over one in-memory tree for solver-chosen members x 6 ways of reaching the file x exclusion configurations; decoding agreement on symbolic bytes (CrossHair)",
              text="Bounded by the tree pool; for every member the listing, the skip rules and the exit status of check are compared with what scan stores for the same file. One known finding (directory argument under a dot-directory) is listed and assumed away.",
              ref="DESIGN.md 3/C12"),
+ "C06": dict(cat="other", technique="CrossHair: scan B / scan symbolic soup A / scan B isolation harness; permutation-invariance of one real Pattern.consume step over every automaton state (models hash-seed set order); permutation of Codebase insertions; sibling-order variation of scan_path over the in-memory FS",
+             text="Bounded soups (N tokens) as the intervening file, every permutation of <= 4 transitions with unbounded token text and depth, all 6 insertion orders with unbounded values, reversed/rotated directory orders over the C11 tree family. Hash seeds and OS directory order enter only through their modelled effect (stated).",
+             ref="DESIGN.md 3/C06"),
 }
 NA = {}
 def main():
